@@ -117,6 +117,7 @@ def _run_extractor(family, deref_lets=("H_i",)):
         ],
         "deref_lets": list(deref_lets),
         "tape_fns": TAPE_FNS if family == "bbs" else [],
+        "decl_types": {"pprime": "Integer", "p": "Integer", "qprime": "Integer", "q": "Integer"} if family == "cl" else {},
     }
     os.makedirs(BUILD, exist_ok=True)
     cfgp = os.path.join(BUILD, f"vx_{family}_{os.getpid()}_{__import__('uuid').uuid4().hex}.json")
